@@ -257,8 +257,6 @@ def first_diff(x, y, path="$"):
 
 
 def covered_writers(a, msg):
-    if "\\r" in json.dumps(a.get("value")):
-        return "C08-native-cr"
     if a.get("indent"):
         u = uni_of(a)
         o = D.real_infoset(u, u.from_val(a["value"]), "lxml", indent=None,
@@ -495,21 +493,6 @@ def finding_pi_text():
     return n != l, f"native {n!r} lxml {l!r}"
 
 
-def finding_native_cr():
-    from lxml import etree
-
-    from xsdata.formats.dataclass.serializers import XmlSerializer
-    from xsdata.formats.dataclass.serializers.writers import LxmlEventWriter, XmlEventWriter
-
-    AnyElement = _any()
-    o = AnyElement(qname="r", children=[AnyElement(qname="a", text="x\ry")])
-    out = {}
-    for name, w in (("native", XmlEventWriter), ("lxml", LxmlEventWriter)):
-        xml = XmlSerializer(writer=w).render(o)
-        out[name] = etree.fromstring(xml.encode()).find("a").text
-    return out["native"] != out["lxml"], repr(out)
-
-
 def finding_indent_mixed():
     from lxml import etree
 
@@ -549,7 +532,6 @@ def finding_wrapper_nsdecl():
 
 FINDINGS = {
     "C08-lxml-pi-text": finding_pi_text,
-    "C08-native-cr": finding_native_cr,
     "C08-indent-mixed": finding_indent_mixed,
     "C08-wrapper-nsdecl": finding_wrapper_nsdecl,
 }
